@@ -5,6 +5,7 @@ import (
 	"fmt"
 	"os"
 	"path/filepath"
+	"strconv"
 	"strings"
 
 	"github.com/ogen-go/ogen/gen"
@@ -184,4 +185,39 @@ func c08Generated(r *lp.Run) {
 			}
 		}
 	}
+}
+
+// control-letter and legacy octal escapes: every `\cX` (X a letter) denotes the code point X mod 32, every
+// octal escape below \400 the code point with that octal value — checked on the compiled pattern
+func c08Escapes(r *lp.Run) {
+	check := func(esc string, cp rune) {
+		p := "^" + esc + "$"
+		re, err := ogenregex.Compile(p)
+		r.Count("escape "+esc, "escape", true)
+		r.PropCheck()
+		in := map[string]string{"pattern": p, "denotes": fmt.Sprintf("U+%04X", cp)}
+		if err != nil {
+			r.Fail(lp.PropFail{Property: "C08", What: "an escape of the portable grammar does not compile", Input: in, Observed: err.Error(), Expected: "compiles"})
+			return
+		}
+		yes, _ := re.MatchString(string(cp))
+		no1, _ := re.MatchString(string(cp) + "0")
+		no2, _ := re.MatchString(string(cp/16) + string('0'+cp%16))
+		no3, _ := re.MatchString(esc)
+		if !yes || no1 || no2 || no3 {
+			r.Fail(lp.PropFail{Property: "C08", What: "an escape does not denote its code point", Input: in, Observed: fmt.Sprintf("matches its code point: %v; matches <cp>0: %v; matches the escape's own text: %v", yes, no1 || no2, no3), Expected: "true false false"})
+		}
+	}
+	for c := 'A'; c <= 'Z'; c++ {
+		check(`\c`+string(c), c%32)
+		check(`\c`+string(c+32), c%32)
+		check(`[\c`+string(c)+`]`, c%32)
+	}
+	for v := 1; v < 0o400; v++ {
+		if v < 8 {
+			continue // \1..\7 are back-references when groups exist; \0 is NUL — covered by the token stream
+		}
+		check(`\`+strconv.FormatInt(int64(v), 8), rune(v))
+	}
+	check(`\0`, 0)
 }
